@@ -146,6 +146,7 @@ enum TInstr {
     MapOld(i64, Operand),
     Fold(i64, i64, Vec<Operand>),
     Cutoff(Operand, CutoffD),
+    Export(Operand),
     Bind(Operand, BindFn),
 }
 #[derive(Clone)]
@@ -324,6 +325,7 @@ impl P {
                 let c = self.next();
                 TInstr::Cutoff(tg, Self::cutoff(&c))
             }
+            "export" => TInstr::Export(self.operand()),
             "bind" => {
                 let lhs = self.operand();
                 TInstr::Bind(lhs, self.bindfn())
@@ -336,8 +338,9 @@ impl P {
 // ---------------------------------------------------------------- context shared with closures
 struct Ctx {
     state: WeakState,
-    vars: RefCell<Vec<Var<Val>>>,
+    vars: RefCell<Vec<Option<Var<Val>>>>,
     obs: RefCell<Vec<Vec<Observer<Val>>>>,
+    exports: RefCell<Vec<I>>,
     inv_count: Cell<usize>,
     crash_at: Cell<Option<usize>>,
 }
@@ -380,33 +383,33 @@ fn run_effects(arg: &Val, effs: &[Effect]) {
         // take clones of handles so no RefCell borrow of the context is held while user code runs
         match e {
             Effect::Set(x, v) => {
-                let var = c.vars.borrow()[*x].clone();
+                let var = c.vars.borrow()[*x].clone().expect("harness: var handle dropped");
                 var.set(Val::Int(*v))
             }
             Effect::SetArg(x) => {
-                let var = c.vars.borrow()[*x].clone();
+                let var = c.vars.borrow()[*x].clone().expect("harness: var handle dropped");
                 var.set(arg.clone())
             }
             Effect::Update(x, d) => {
-                let var = c.vars.borrow()[*x].clone();
+                let var = c.vars.borrow()[*x].clone().expect("harness: var handle dropped");
                 var.update(|v| Val::Int(v.as_int() + d))
             }
             Effect::Modify(x, d) => {
-                let var = c.vars.borrow()[*x].clone();
+                let var = c.vars.borrow()[*x].clone().expect("harness: var handle dropped");
                 var.modify(|v| *v = Val::Int(v.as_int() + d))
             }
             Effect::Replace(x, v) => {
-                let var = c.vars.borrow()[*x].clone();
+                let var = c.vars.borrow()[*x].clone().expect("harness: var handle dropped");
                 let old = var.replace(Val::Int(*v));
                 ev(format!("effreplace {x} {old:?}"));
             }
             Effect::ReplaceWith(x, d) => {
-                let var = c.vars.borrow()[*x].clone();
+                let var = c.vars.borrow()[*x].clone().expect("harness: var handle dropped");
                 let old = var.replace_with(|v| Val::Int(v.as_int() + d));
                 ev(format!("effreplace {x} {old:?}"));
             }
             Effect::Get(x) => {
-                let var = c.vars.borrow()[*x].clone();
+                let var = c.vars.borrow()[*x].clone().expect("harness: var handle dropped");
                 ev(format!("effget {x} {:?}", var.get()));
             }
             Effect::Read(o) => {
@@ -546,6 +549,7 @@ fn subst_tinstr(lv: usize, locals: &[I], t: &TInstr) -> TInstr {
         TInstr::MapOld(f, a) => TInstr::MapOld(*f, so(a)),
         TInstr::Fold(f, i, args) => TInstr::Fold(*f, *i, args.iter().map(so).collect()),
         TInstr::Cutoff(tg, c) => TInstr::Cutoff(so(tg), c.clone()),
+        TInstr::Export(o) => TInstr::Export(so(o)),
         TInstr::Bind(lhs, f) => TInstr::Bind(so(lhs), subst_bindfn(lv + 1, locals, f)),
     }
 }
@@ -565,13 +569,13 @@ fn subst_bindfn(lv: usize, locals: &[I], f: &BindFn) -> BindFn {
     }
 }
 /// replace top-level handles by the nodes they denote
-fn handles_operand(tbl: &[I], o: &Operand) -> Operand {
+fn handles_operand(tbl: &[Option<I>], o: &Operand) -> Operand {
     match o {
-        Operand::Handle(h) => Operand::Outer(tbl[*h].clone()),
+        Operand::Handle(h) => Operand::Outer(tbl[*h].clone().expect("harness: node handle dropped")),
         _ => o.clone(),
     }
 }
-fn handles_bindfn(tbl: &[I], f: &BindFn) -> BindFn {
+fn handles_bindfn(tbl: &[Option<I>], f: &BindFn) -> BindFn {
     BindFn {
         effs: f.effs.clone(),
         templates: f
@@ -590,6 +594,7 @@ fn handles_bindfn(tbl: &[I], f: &BindFn) -> BindFn {
                                 TInstr::MapOld(f, a) => TInstr::MapOld(*f, so(a)),
                                 TInstr::Fold(f, i, args) => TInstr::Fold(*f, *i, args.iter().map(so).collect()),
                                 TInstr::Cutoff(tg, c) => TInstr::Cutoff(so(tg), c.clone()),
+                                TInstr::Export(o) => TInstr::Export(so(o)),
                                 TInstr::Bind(lhs, f) => TInstr::Bind(so(lhs), handles_bindfn(tbl, f)),
                             }
                         })
@@ -629,6 +634,11 @@ fn instantiate(state: &WeakState, lhsv: &Val, body: &[TInstr], r: &Operand) -> I
                 apply_cutoff(&n, c);
                 continue;
             }
+            TInstr::Export(o) => {
+                let n = resolve(&locals, o);
+                ctx().exports.borrow_mut().push(n);
+                continue;
+            }
             TInstr::Bind(lhs, f) => {
                 let l = resolve(&locals, lhs);
                 mk_bind(state, &l, subst_bindfn(0, &locals, f))
@@ -661,7 +671,7 @@ fn mk_bind(state: &WeakState, lhs: &I, f: BindFn) -> I {
 struct Interp {
     state: IncrState,
     ctx: Rc<Ctx>,
-    hnodes: Vec<I>,
+    hnodes: Vec<Option<I>>,
     hsubs: Vec<Option<SubscriptionToken>>,
     dump: bool,
 }
@@ -680,6 +690,7 @@ impl Interp {
             state: state.weak(),
             vars: RefCell::new(vec![]),
             obs: RefCell::new(vec![]),
+            exports: RefCell::new(vec![]),
             inv_count: Cell::new(0),
             crash_at: Cell::new(None),
         });
@@ -688,7 +699,7 @@ impl Interp {
     }
     fn push(&mut self, n: I) -> String {
         let r = n.verif_rank();
-        self.hnodes.push(n);
+        self.hnodes.push(Some(n));
         format!("node {r}")
     }
     fn obs0(&self, o: usize) -> Option<Observer<Val>> {
@@ -702,14 +713,14 @@ impl Interp {
             "var" => {
                 let v = self.state.var(Val::Int(p.int()));
                 let n = v.watch();
-                self.ctx.vars.borrow_mut().push(v);
+                self.ctx.vars.borrow_mut().push(Some(v));
                 self.push(n)
             }
             "pair" => {
                 let (a, b) = (p.int(), p.int());
                 let v = self.state.var(Val::Pair(Box::new(Val::Int(a)), Box::new(Val::Int(b))));
                 let n = v.watch();
-                self.ctx.vars.borrow_mut().push(v);
+                self.ctx.vars.borrow_mut().push(Some(v));
                 self.push(n)
             }
             "const" => {
@@ -721,19 +732,19 @@ impl Interp {
                 let effs = p.effs();
                 let mut args = vec![];
                 while p.peek().is_some() {
-                    args.push(self.hnodes[p.nat()].clone());
+                    args.push(self.hnodes[p.nat()].clone().expect("harness: node handle dropped"));
                 }
                 let n = mk_map(&w, fid, 0, effs, &args);
                 self.push(n)
             }
             "mapref" => {
                 let pr = p.int();
-                let n = mk_mapref(pr, &self.hnodes[p.nat()]);
+                let n = mk_mapref(pr, &self.hnodes[p.nat()].clone().expect("harness: node handle dropped"));
                 self.push(n)
             }
             "mapold" => {
                 let f = p.int();
-                let n = mk_mapold(f, 0, &self.hnodes[p.nat()]);
+                let n = mk_mapold(f, 0, &self.hnodes[p.nat()].clone().expect("harness: node handle dropped"));
                 self.push(n)
             }
             "fold" => {
@@ -741,43 +752,68 @@ impl Interp {
                 let init = p.int();
                 let mut args = vec![];
                 while p.peek().is_some() {
-                    args.push(self.hnodes[p.nat()].clone());
+                    args.push(self.hnodes[p.nat()].clone().expect("harness: node handle dropped"));
                 }
                 let n = mk_fold(&w, f, 0, init, args);
                 self.push(n)
             }
             "zip" => {
-                let a = self.hnodes[p.nat()].clone();
-                let b = self.hnodes[p.nat()].clone();
+                let a = self.hnodes[p.nat()].clone().expect("harness: node handle dropped");
+                let b = self.hnodes[p.nat()].clone().expect("harness: node handle dropped");
                 // zip produces Incr<(Val, Val)>; bring it back to Incr<Val> would add a node, so the
                 // harness uses the same construction zip uses (incr.rs:135) at type Val
                 let n = zip_val(&w, &a, &b);
                 self.push(n)
             }
             "dependon" => {
-                let a = self.hnodes[p.nat()].clone();
-                let b = self.hnodes[p.nat()].clone();
+                let a = self.hnodes[p.nat()].clone().expect("harness: node handle dropped");
+                let b = self.hnodes[p.nat()].clone().expect("harness: node handle dropped");
                 let n = a.depend_on(&b);
                 self.push(n)
             }
             "bind" => {
-                let lhs = self.hnodes[p.nat()].clone();
+                let lhs = self.hnodes[p.nat()].clone().expect("harness: node handle dropped");
                 let f = p.bindfn();
                 let f = handles_bindfn(&self.hnodes, &f);
                 let n = mk_bind(&w, &lhs, f);
                 self.push(n)
             }
             "cutoff" => {
-                let n = self.hnodes[p.nat()].clone();
+                let n = self.hnodes[p.nat()].clone().expect("harness: node handle dropped");
                 let c = P::cutoff(&p.next());
                 apply_cutoff(&n, &c);
                 "ok".into()
             }
             "observe" => {
-                let o = self.hnodes[p.nat()].observe();
+                let o = self.hnodes[p.nat()].clone().expect("harness: node handle dropped").observe();
                 let mut obs = self.ctx.obs.borrow_mut();
                 obs.push(vec![o]);
                 format!("obs {}", obs.len() - 1)
+            }
+            "observeexport" => {
+                let k = p.nat();
+                let n = {
+                    let ex = self.ctx.exports.borrow();
+                    if ex.is_empty() { None } else { Some(ex[k % ex.len()].clone()) }
+                };
+                let n = n.unwrap_or_else(|| self.state.constant(Val::Int(0)));
+                let o = n.observe();
+                let mut obs = self.ctx.obs.borrow_mut();
+                obs.push(vec![o]);
+                format!("obs {}", obs.len() - 1)
+            }
+            "mapexport" => {
+                let fid = p.int();
+                let k = p.nat();
+                let n = {
+                    let ex = self.ctx.exports.borrow();
+                    if ex.is_empty() { None } else { Some(ex[k % ex.len()].clone()) }
+                };
+                let n = match n {
+                    Some(n) => mk_map(&w, fid, 0, vec![], &[n]),
+                    None => self.state.constant(Val::Int(0)),
+                };
+                self.push(n)
             }
             "cloneobs" => {
                 let o = p.nat();
@@ -862,46 +898,46 @@ impl Interp {
             "set" => {
                 let x = p.nat();
                 let v = p.int();
-                let var = self.ctx.vars.borrow()[x].clone();
+                let var = self.ctx.vars.borrow()[x].clone().expect("harness: var handle dropped");
                 var.set(Val::Int(v));
                 "ok".into()
             }
             "setpair" => {
                 let x = p.nat();
                 let (a, b) = (p.int(), p.int());
-                let var = self.ctx.vars.borrow()[x].clone();
+                let var = self.ctx.vars.borrow()[x].clone().expect("harness: var handle dropped");
                 var.set(Val::Pair(Box::new(Val::Int(a)), Box::new(Val::Int(b))));
                 "ok".into()
             }
             "update" => {
                 let x = p.nat();
                 let d = p.int();
-                let var = self.ctx.vars.borrow()[x].clone();
+                let var = self.ctx.vars.borrow()[x].clone().expect("harness: var handle dropped");
                 var.update(|v| Val::Int(v.as_int() + d));
                 "ok".into()
             }
             "modify" => {
                 let x = p.nat();
                 let d = p.int();
-                let var = self.ctx.vars.borrow()[x].clone();
+                let var = self.ctx.vars.borrow()[x].clone().expect("harness: var handle dropped");
                 var.modify(|v| *v = Val::Int(v.as_int() + d));
                 "ok".into()
             }
             "replace" => {
                 let x = p.nat();
                 let v = p.int();
-                let var = self.ctx.vars.borrow()[x].clone();
+                let var = self.ctx.vars.borrow()[x].clone().expect("harness: var handle dropped");
                 format!("val {:?}", var.replace(Val::Int(v)))
             }
             "replacewith" => {
                 let x = p.nat();
                 let d = p.int();
-                let var = self.ctx.vars.borrow()[x].clone();
+                let var = self.ctx.vars.borrow()[x].clone().expect("harness: var handle dropped");
                 format!("val {:?}", var.replace_with(|v| Val::Int(v.as_int() + d)))
             }
             "get" => {
                 let x = p.nat();
-                let var = self.ctx.vars.borrow()[x].clone();
+                let var = self.ctx.vars.borrow()[x].clone().expect("harness: var handle dropped");
                 format!("val {:?}", var.get())
             }
             "stabilise" => {
@@ -921,6 +957,18 @@ impl Interp {
             "setmaxheight" => {
                 let n = p.int();
                 self.state.set_max_height_allowed(n as usize);
+                "ok".into()
+            }
+            "dropnode" => {
+                let h = p.nat();
+                let n = self.hnodes[h].take();
+                drop(n);
+                "ok".into()
+            }
+            "dropvar" => {
+                let x = p.nat();
+                let v = self.ctx.vars.borrow_mut()[x].take();
+                drop(v);
                 "ok".into()
             }
             "crashat" => {
